@@ -284,3 +284,84 @@ func gatewayTable(c *Ctx) (rows []string, def string, src string) {
 	}
 	return nil, def, ""
 }
+
+func init() { register("c10rb", extractC10RespBody) }
+
+// Facts about response_body selection (round 5), transcoding/http.go:
+//   - c10TraverseLookups: the methods called on the field list (`fields.<Method>(…)`) inside traverseFieldPath, sorted —
+//     ["ByName"]: proto names only;
+//   - c10TraverseNotMessageCond: the condition guarding the "… is not a message" error return;
+//   - c10TraverseDescend: the right-hand sides assigned to `msg` inside the loop;
+//   - c10RespTranscodeCalls: in standardResponseTranscoder.transcodeFunc, the traverseFieldPath call and every call of
+//     the marshal callback `f`, as source text in order;
+//   - c10RespTranscodeAssigns: how often transcodeFunc assigns each of msg / fd (a second assignment would re-target the
+//     selection after the walk).
+func extractC10RespBody(c *Ctx) {
+	const file = "transcoding/http.go"
+	lookups := map[string]bool{}
+	cond, csrc := "", ""
+	var descend []string
+	if fd := c.FuncDecl(file, "", "traverseFieldPath"); fd != nil {
+		csrc = c.Pos(fd)
+		ast.Inspect(fd, func(n ast.Node) bool {
+			switch x := n.(type) {
+			case *ast.CallExpr:
+				if sel, ok := x.Fun.(*ast.SelectorExpr); ok {
+					if id, ok := sel.X.(*ast.Ident); ok && id.Name == "fields" {
+						lookups[sel.Sel.Name] = true
+					}
+				}
+			case *ast.IfStmt:
+				if strings.Contains(c.Src(x.Body), "is not a message") {
+					cond = c.Src(x.Cond)
+				}
+			case *ast.ForStmt:
+				ast.Inspect(x.Body, func(m ast.Node) bool {
+					if as, ok := m.(*ast.AssignStmt); ok {
+						for i, l := range as.Lhs {
+							if id, ok := l.(*ast.Ident); ok && id.Name == "msg" && i < len(as.Rhs) {
+								descend = append(descend, c.Src(as.Rhs[i]))
+							}
+						}
+					}
+					return true
+				})
+			}
+			return true
+		})
+	}
+	var ll []string
+	for k := range lookups {
+		ll = append(ll, k)
+	}
+	sortStrings(ll)
+	c.Add("c10TraverseLookups", "List String", LeanStrList(ll), csrc, "methods called on the field list in traverseFieldPath")
+	c.Add("c10TraverseNotMessageCond", "String", LeanStr(cond), csrc, "condition of the 'is not a message' error in traverseFieldPath")
+	c.Add("c10TraverseDescend", "List String", LeanStrList(descend), csrc, "values assigned to msg inside the loop of traverseFieldPath")
+
+	var calls []string
+	counts := map[string]int{"msg": 0, "fd": 0}
+	tsrc := ""
+	if fd := c.FuncDecl(file, "standardResponseTranscoder", "transcodeFunc"); fd != nil {
+		tsrc = c.Pos(fd)
+		ast.Inspect(fd.Body, func(n ast.Node) bool {
+			switch x := n.(type) {
+			case *ast.CallExpr:
+				if id, ok := x.Fun.(*ast.Ident); ok && (id.Name == "f" || id.Name == "traverseFieldPath") {
+					calls = append(calls, c.Src(x))
+				}
+			case *ast.AssignStmt:
+				for _, l := range x.Lhs {
+					if id, ok := l.(*ast.Ident); ok {
+						if _, ok := counts[id.Name]; ok {
+							counts[id.Name]++
+						}
+					}
+				}
+			}
+			return true
+		})
+	}
+	c.Add("c10RespTranscodeCalls", "List String", LeanStrList(calls), tsrc, "traverseFieldPath / marshal-callback calls of standardResponseTranscoder.transcodeFunc")
+	c.Add("c10RespTranscodeAssigns", "List (String × Nat)", fmt.Sprintf("[(\"fd\", %d), (\"msg\", %d)]", counts["fd"], counts["msg"]), tsrc, "assignments to msg / fd in transcodeFunc")
+}
